@@ -209,6 +209,15 @@ func (ex *Exec) runConcurrent() {
 		c.readersUp++
 		ex.sim.Go(fmt.Sprintf("reader%d", id), nil, func() { ex.readerTask(id, 10+ex.tape.Choose(12)) })
 	}
+	var stableDeferred []func()
+	if ex.cfg.StableTask {
+		initial := [2]string{st.Stable["ck0"], st.Stable["ck1"]}
+		c.readersUp++
+		ex.sim.Go("stable", nil, func() {
+			defer func() { c.readersEnd++ }()
+			ex.concStable(6+ex.tape.Choose(14), initial, &stableDeferred)
+		})
+	}
 	for ex.pc < len(ex.plan.Ops) && !ex.stop() {
 		i := ex.pc
 		ex.pc++
@@ -222,6 +231,9 @@ func (ex *Exec) runConcurrent() {
 	if ex.stop() {
 		return
 	}
+	for _, f := range stableDeferred {
+		f()
+	}
 	ex.checkHistory()
 	if ex.stop() {
 		return
@@ -230,6 +242,58 @@ func (ex *Exec) runConcurrent() {
 	// that a truncation removed are gone and their handles closed
 	ex.sim.Quiesce("quiesce-after-readers")
 	ex.dirOracle("after-readers")
+}
+
+// concStable is the stable-store client of the concurrent flow (C08's
+// "concurrent" half): Set / SetUint64 / Get / GetUint64 on two keys nobody
+// else writes, interleaved by the scheduler with the writer's appends,
+// rotations and truncations and with the readers. Expected value = this task's
+// latest acknowledged Set, else what the store held at the start. The
+// candidate-set oracle is updated by the main task after the join.
+func (ex *Exec) concStable(n int, initial [2]string, deferred *[]func()) {
+	expect := initial
+	for i := 0; i < n && !ex.stop(); i++ {
+		ki := ex.tape.Choose(2)
+		key := fmt.Sprintf("ck%d", ki)
+		switch ex.tape.Choose(4) {
+		case 0, 1:
+			val := fmt.Sprintf("v%d", ex.nextID)
+			if ex.tape.Choose(4) == 0 {
+				val = "" // Set(k, empty)
+			}
+			ex.nextID++
+			err := ex.callR(func() error { return ex.w.Set([]byte(key), []byte(val)) })
+			if ex.stop() {
+				return
+			}
+			if err != nil {
+				ex.violate("stable-map", "stable-set-error:"+errClass(err), "Set(%q) beside a running writer returned %v", key, err)
+				return
+			}
+			expect[ki] = val
+			v := val
+			mop := model.Op{Kind: model.OpSet, Key: key, Val: &v}
+			*deferred = append(*deferred, func() { ex.or.Acked(mop) })
+			ex.probes.Add("concurrent_stable_sets", 1)
+		default:
+			var got []byte
+			var err error
+			ex.callR(func() error { got, err = ex.w.Get([]byte(key)); return err })
+			if ex.stop() {
+				return
+			}
+			if err != nil {
+				ex.violate("stable-get", "stable-get-error:"+errClass(err), "Get(%q) beside a running writer returned %v", key, err)
+				return
+			}
+			if string(got) != expect[ki] {
+				ex.violate("stable-map", "stable-wrong-value", "Get(%q) beside a running writer returned %q, latest acknowledged Set wrote %q", key, got, expect[ki])
+				return
+			}
+			ex.probes.Add("concurrent_stable_gets", 1)
+		}
+		ex.stats.Ops++
+	}
 }
 
 // checkHistory evaluates (1) the direct interval oracle with precise
